@@ -63,7 +63,7 @@ def check(ctx: Ctx, col: Collector, tier: str) -> None:
     repo = ctx.repo
     col.spec("C17.BRANCH", "private ancestors are inlined and never named; public superclasses are listed in declaration order and imported",
              "specialisation of the superclass loop over closed superclass lists", floor=5)
-    col.spec("C17.OWN-FIRST", "the subclass's own definitions take precedence", "provenance of the already-defined-names argument; order of effects", floor=1)
+    col.spec("C17.OWN-FIRST", "the subclass's own definitions take precedence", "provenance of the already-defined-names argument; order of effects; recorded names", floor=4)
     col.spec("C17.ACCUM-THREAD", "every public method of private ancestors exactly once: names emitted for one private base reach the next sibling base",
              "loop-carried dependence of the already-defined-names argument across two inlined bases", floor=1)
     col.spec("C17.FILTER", "inlined: exactly the not-yet-defined methods with a public name", "specialisation of the method loop over (is_public, name, already defined, inlined)", floor=12)
@@ -181,6 +181,40 @@ def check(ctx: Ctx, col: Collector, tier: str) -> None:
                         col.bad("C17.FILTER", key, repo.loc(GEN, node), f"emitted={sorted(emitted)}, reference {want}",
                                 f"method {name!r} (is_public={is_public}, already defined={already}) of an {'inlined private' if inlined else 'ordinary'} class: "
                                 f"emitted={sorted(emitted)}; the property requires {want}")
+
+    # the names a class reports as "defined" are compared with the Python names of inherited members: every emitted method, property and
+    # attribute has to be recorded, under its Python name
+    for fname, coll, extra in (("_create_class_method_string", "methods", {"is_property": Const(True)}), ("_create_class_method_string", "methods", {"is_property": Const(False)}),
+                               ("_create_class_attribute_string", "attributes", {"type": Const(None), "is_static": Const(False), "docstring": Sym("X.docstring")})):
+        fi2 = repo.function(GEN, f"{GENCLS}.{fname}")
+        it2 = ctx.interp(fi2, inline={"is_internal"})
+        args = {"self": Sym("self"), coll: Sym(coll), "inner_indentations": Sym("ind")}
+        it2.run_function(fi2, args, gen_state())
+        loops2 = find_loops(it2, fi2, lambda v: sym_is(v, coll))
+        if len(loops2) != 1:
+            raise AnalysisError(f"{coll} loop of {fname} not found")
+        node2, _, _, entry2 = loops2[0]
+        el = Obj("Element", tuple({"name": Const("display_name"), "is_public": Const(True), **extra}.items()))
+        probs2 = set()
+        npaths = 0
+        for o in run_body(it2, node2, entry2.clone(), el):
+            eff = new_effects(o, entry2)
+            emitted = [e for e in eff if e.kind == "mutate" and e.target.endswith(".append")]
+            if not emitted:
+                continue
+            npaths += 1
+            adds = [e for e in eff if e.kind == "mutate" and e.target.endswith("_names.add") and e.args]
+            if not adds:
+                probs2.add("an emitted member is not recorded in the set of defined names")
+            for e in adds:
+                if e.args[0] != Const("display_name"):
+                    probs2.add(f"recorded as {e.args[0]!r}"[:90] + ", not under its Python name")
+        label = coll + ("" if "is_property" not in extra else (":property" if extra["is_property"] == Const(True) else ":method"))
+        key = f"{GEN}::{GENCLS}.{fname}::own-names-recorded::{label}"
+        good = npaths > 0 and not probs2
+        (col.ok if good else col.bad)("C17.OWN-FIRST", key, repo.loc(GEN, node2), f"every emitted element of {label} is recorded under its Python name" if good else "; ".join(sorted(probs2)) or "no emitting path",
+                                      *([] if good else [f"{fname}: {sorted(probs2)[0] if probs2 else 'no emitting path'}: the subclass's own {label.split(':')[-1]} does not take precedence over a member "
+                                                         f"inherited from a private ancestor (the member is emitted twice) whenever the recorded spelling differs from the inherited member's Python name"]))
 
     # ------------------------------------------------------------------ RECURSE
     ifi = repo.function(GEN, f"{GENCLS}._create_internal_class_string")
